@@ -97,9 +97,15 @@ def procvar_group(case, fast):
         t = type(f"T{ti}", (EBPFTerminal,), attrs)(ec)
         t.position = ts["position"]
         t.pdos = {(i, s): (SyncManager(sm), off, size) for i, s, sm, off, size in ts["pdos"]}
-        t.pdo_in_sz, t.pdo_out_sz, t.pdo_in_off, t.pdo_out_off = ts["in_sz"], ts["out_sz"], 0x1100, 0x1000
-        t.use_fmmu = ts["fmmu"]
+        t.pdo_in_off, t.pdo_out_off = 0x1100, 0x1000
         terms.append(t)
+
+    def configure(sizes):
+        """process-data sizes and FMMU use of the terminals (what a terminal's PDO configuration decides)"""
+        for t, ts in zip(terms, sizes):
+            t.pdo_in_sz, t.pdo_out_sz, t.use_fmmu = ts["in_sz"], ts["out_sz"], ts["fmmu"]
+    earlier = list(case.get("restart") or [])       # the group was started before, with these configurations
+    configure(earlier[0] if earlier else case["terms"])
 
     ndev = 1 + max([v["dev"] for v in case["vars"]] + [d["dev"] for d in case["dvs"]] + [o["dev"] for o in case["ops"]])
     devs = []
@@ -146,16 +152,67 @@ def procvar_group(case, fast):
                 pass
             prior = {"sg": prior, "frame": frame}
         sg = SyncGroup(ec, devs)
-        sg.allocate()
-        return {"sg": sg, "terms": terms, "devs": devs, "pvs": pvs, "prior": prior}
+        if not earlier:
+            sg.allocate()
+            return {"sg": sg, "terms": terms, "devs": devs, "pvs": pvs, "prior": prior, "restarts": []}
+        # the same group object is started, runs one cycle (all-zero process data and DeviceVars), is stopped, the
+        # terminals get another PDO configuration and the group is started again: through the real SyncGroup.start()
+        restarts = []
+        for nxt in earlier[1:] + [case["terms"]]:
+            _start_slow(sg)
+            for j, d in enumerate(case["dvs"]):
+                setattr(devs[d["dev"]], f"dv{j}", 0)
+            sg.current_data[:] = sg.packet.assemble(6, 0x88A4)
+            frame = bytes(sg.current_data)
+            try:
+                for dev in devs:
+                    dev.update()
+            except Exception:         # struct.error on the unchanged tree (unrepresentable value): the cycle ends there
+                pass
+            restarts.append({"frame": frame, "assign": dict(sg.pdo_assign)})
+            configure(nxt)
+        _start_slow(sg)
+        return {"sg": sg, "terms": terms, "devs": devs, "pvs": pvs, "prior": prior, "restarts": restarts}
+    restarts = []
     with fsim.fake_maps() as created:
         sg = FastSyncGroup(ec, devs)
+        for nxt in earlier[1:] + ([case["terms"]] if earlier else []):
+            # started before (allocate() is what FastSyncGroup.start() does first); Python read every variable in
+            # the frame that came back (fast_update), then the configuration changed
+            sg.allocate()
+            frame = bytes(sg.packet.assemble(6, 0x88A4))
+            sg.current_data = bytearray(frame)
+            for vi, v in enumerate(case["vars"]):
+                try:
+                    getattr(devs[v["dev"]], f"tv{vi}")
+                except Exception:
+                    break
+            sg.current_data = None
+            restarts.append({"frame": frame, "assign": dict(sg.pdo_assign)})
+            configure(nxt)
         sg.allocate()
         sg.assemble()
     (fd, args), = created
     return {"sg": sg, "terms": terms, "devs": devs, "pvs": pvs, "insns": list(sg.opcodes), "var_fd": fd,
-            "var_size": args[2], "off_wkc_errors": sg.__dict__["wkc_errors"],
+            "var_size": args[2], "off_wkc_errors": sg.__dict__["wkc_errors"], "restarts": restarts,
             "dv_off": [devs[d["dev"]].__dict__[f"dv{j}"] for j, d in enumerate(case["dvs"])]}
+
+
+def _start_slow(sg):
+    """the real SyncGroup.start() (allocation, packet index, assembled frame, fresh process image) with the cyclic
+    task replaced by one that ends at once (no bus here)"""
+    import asyncio
+
+    async def no_cycle():
+        return None
+
+    async def go():
+        sg.run = no_cycle
+        try:
+            await sg.start()
+        finally:
+            del sg.run
+    asyncio.run(go())
 
 
 # ---- C05: the bundled devices in a FastSyncGroup, and bare fast groups of several packet layouts ----
